@@ -1,15 +1,17 @@
 #!/usr/bin/env python3
-"""Write lean/BioCantor.lean importing every module under lean/BioCantor (so `lake build BioCantor` builds all)."""
+"""List every module under lean/BioCantor in lean/modules.txt (setup builds them one by one, so that modules of
+different properties never have to be imported into one file) and keep lean/BioCantor.lean minimal."""
 import os
 root = os.path.join(os.path.dirname(os.path.dirname(os.path.abspath(__file__))), "lean")
 mods = []
 for d, _, fs in os.walk(os.path.join(root, "BioCantor")):
     for f in fs:
         if f.endswith(".lean"):
-            rel = os.path.relpath(os.path.join(d, f), root)[:-5].replace(os.sep, ".")
-            mods.append(rel)
-content = "".join(f"import {m}\n" for m in sorted(mods))
-p = os.path.join(root, "BioCantor.lean")
-if not os.path.exists(p) or open(p).read() != content:
-    open(p, "w").write(content)
+            mods.append(os.path.relpath(os.path.join(d, f), root)[:-5].replace(os.sep, "."))
+mods = sorted(mods)
+def put(path, content):
+    if not os.path.exists(path) or open(path).read() != content:
+        open(path, "w").write(content)
+put(os.path.join(root, "modules.txt"), "\n".join(mods) + "\n")
+put(os.path.join(root, "BioCantor.lean"), "import BioCantor.Base\n")
 print(len(mods), "modules")
